@@ -25,6 +25,8 @@ package actor
 import (
 	"sync/atomic"
 	"unsafe"
+
+	"github.com/tochemey/goakt/v4/internal/verifhook"
 )
 
 // CacheLinePadding prevents false sharing between CPU cache lines
@@ -78,7 +80,9 @@ func NewUnboundedMailbox() *UnboundedMailbox {
 // `next` field is overwritten.
 func (m *UnboundedMailbox) Enqueue(value *ReceiveContext) error {
 	atomic.StorePointer(&value.next, nil)
+	verifhook.At("mpsc.enq.swap", m, 0, 0)
 	prev := (*ReceiveContext)(atomic.SwapPointer(&m.tail, unsafe.Pointer(value)))
+	verifhook.At("mpsc.enq.link", m, 0, 0)
 	atomic.StorePointer(&prev.next, unsafe.Pointer(value))
 	return nil
 }
@@ -90,6 +94,7 @@ func (m *UnboundedMailbox) Enqueue(value *ReceiveContext) error {
 // not release it — the next Dequeue will. The previous sentinel is
 // reset and returned to the shared context pool.
 func (m *UnboundedMailbox) Dequeue() *ReceiveContext {
+	verifhook.At("mpsc.deq", m, 0, 0)
 	head := (*ReceiveContext)(atomic.LoadPointer(&m.head))
 	next := (*ReceiveContext)(atomic.LoadPointer(&head.next))
 
@@ -131,6 +136,7 @@ func (m *UnboundedMailbox) Len() int64 {
 // IsEmpty reports whether the mailbox currently holds no messages.
 // The result is a racy snapshot; safe only from the consumer.
 func (m *UnboundedMailbox) IsEmpty() bool {
+	verifhook.At("mpsc.isempty", m, 0, 0)
 	head := (*ReceiveContext)(atomic.LoadPointer(&m.head))
 	next := atomic.LoadPointer(&head.next)
 	return next == nil
